@@ -326,7 +326,20 @@ impl<'tcx> Cx<'tcx> {
                 }
             }
         }
-        // byte / str slices
+        // byte / str slices — literal, or a named constant (`const HEADER: &[u8] = b"…"`) evaluated here
+        let is_byte_slice = match ty.kind() {
+            ty::Ref(_, inner, _) => inner.is_str() || matches!(inner.kind(), ty::Slice(e) if *e == tcx.types.u8),
+            _ => false,
+        };
+        let evaluated: Option<Const<'tcx>> = if is_byte_slice && !matches!(c, Const::Val(..)) {
+            match std::panic::catch_unwind(std::panic::AssertUnwindSafe(|| c.eval(tcx, env, rustc_span::DUMMY_SP))) {
+                Ok(Ok(v)) => Some(Const::Val(v, ty)),
+                _ => None,
+            }
+        } else {
+            None
+        };
+        let c = evaluated.as_ref().unwrap_or(c);
         match c {
             Const::Val(ConstValue::Slice { alloc_id, meta }, _) => {
                 if let rustc_middle::mir::interpret::GlobalAlloc::Memory(alloc) = tcx.global_alloc(*alloc_id) {
@@ -338,6 +351,37 @@ impl<'tcx> Cx<'tcx> {
             }
             Const::Val(ConstValue::ZeroSized, _) => {
                 j.set("zst", J::Bool(true));
+            }
+            Const::Val(ConstValue::Indirect { alloc_id, offset }, _) if is_byte_slice => {
+                // an evaluated named constant of slice type: a fat pointer (address, length) stored in memory
+                let mut done = false;
+                if let Some(rustc_middle::mir::interpret::GlobalAlloc::Memory(alloc)) = tcx.try_get_global_alloc(*alloc_id) {
+                    let a = alloc.inner();
+                    let o = offset.bytes() as usize;
+                    if o + 16 <= a.len() {
+                        if let Some(prov) = a.provenance().get_ptr(rustc_abi::Size::from_bytes(o as u64)) {
+                            let raw = a.inspect_with_uninit_and_ptr_outside_interpreter(o..o + 16);
+                            let mut rel: u64 = 0;
+                            let mut n: u64 = 0;
+                            for k in 0..8 {
+                                rel |= (raw[k] as u64) << (8 * k);
+                                n |= (raw[8 + k] as u64) << (8 * k);
+                            }
+                            if let Some(rustc_middle::mir::interpret::GlobalAlloc::Memory(talloc)) = tcx.try_get_global_alloc(prov.alloc_id()) {
+                                let ta = talloc.inner();
+                                let (rel, n) = (rel as usize, n as usize);
+                                if n <= 65536 && rel + n <= ta.len() {
+                                    let bytes = ta.inspect_with_uninit_and_ptr_outside_interpreter(rel..rel + n);
+                                    j.set("bytes", J::Arr(bytes.iter().map(|b| J::UInt(*b as u128)).collect()));
+                                    done = true;
+                                }
+                            }
+                        }
+                    }
+                }
+                if !done {
+                    j.set("other", J::s(with_no_trimmed_paths!(format!("{}", c))));
+                }
             }
             _ => {
                 j.set("other", J::s(with_no_trimmed_paths!(format!("{}", c))));
